@@ -247,6 +247,10 @@ class Session(Thread):
                     else:
                         # End of session, unexpected
                         raise SessionCloseError(self._buffer.getvalue())
+                elif self._closing.is_set():
+                    # Closed from our side: a socket that was closed locally
+                    # never becomes readable again, so do not wait for EOF
+                    break
         except Exception as e:
             self.logger.debug("Broke out of main loop, error=%r", e)
             self._dispatch_error(e)
